@@ -7,6 +7,11 @@
 
 #include <models/ModelBuilder.h>
 
+#include <cerrno>
+#include <cstdlib>
+#include <stdexcept>
+#include <string>
+
 namespace opensmt {
 class IDLSolver : public STPSolver<SafeInt> {
 public:
@@ -16,7 +21,15 @@ public:
 template<>
 SafeInt Converter<SafeInt>::getValue(Number const & val) {
     assert(val.isInteger());
-    return SafeInt(static_cast<ptrdiff_t>(val.get_d()));
+    // The conversion must be exact: going through double loses precision beyond 2^53 and is undefined beyond 2^63
+    std::string const str = val.get_str();
+    errno = 0;
+    char * end = nullptr;
+    long long const converted = std::strtoll(str.c_str(), &end, 10);
+    if (errno == ERANGE or end == str.c_str() or *end != '\0') {
+        throw std::overflow_error("Difference logic constant does not fit into a machine integer");
+    }
+    return SafeInt(static_cast<ptrdiff_t>(converted));
 }
 
 template<>
